@@ -23,12 +23,11 @@ def afterScheme (s : Str) : Str := (s.dropWhile (· ≠ ':')).drop 3
 def authorityOf (s : Str) : Str := (afterScheme s).takeWhile (fun c => !isNetlocDelim c)
 def afterAuthority (s : Str) : Str := (afterScheme s).dropWhile (fun c => !isNetlocDelim c)
 
-/-- the scheme (what precedes the first `:`) is made of ASCII letters; the authority (what
-follows `://` up to the first `/`, `?` or `#`) holds no bracket; no `@` behind the authority -/
+/-- the scheme (what precedes the first `:`) is made of ASCII letters, and there is no `@`
+behind the authority (what follows `://` up to the first `/`, `?` or `#`) -/
 def region (u : Str) : Bool :=
   let s := strip u
-  (schemeOf s).all isAsciiAlpha && !(authorityOf s).contains '[' && !(authorityOf s).contains ']' &&
-    !(afterAuthority s).contains '@'
+  (schemeOf s).all isAsciiAlpha && !(afterAuthority s).contains '@'
 
 /-! ## list helpers -/
 
@@ -107,37 +106,52 @@ theorem http_accepts' (rest : Str) :
 
 /-! ## the hostname `is_url` looks at -/
 
-theorem safeHostname_shape {y sch ui H po tl : Str} (h : Shape y sch ui H po tl) :
+theorem safeHostname_shape {y sch ui H po tl : Str} (h : Shape y sch ui H po tl)
+    (hok : netlocOk (ui ++ (H ++ po)) = true) :
     safeHostname y = .ok (some (lower H)) := by
   unfold safeHostname
   have hp : pyMatch PROTOCOL_RE y = true := by rw [h.eq]; exact protocol_accepts h.sch _
-  obtain ⟨pa, q, f, hsp⟩ := h.urlsplit_eq
+  obtain ⟨pa, q, f, hsp⟩ := h.urlsplit_ok hok
   simp only [hp, if_true, hsp, h.hostname_eq]
+
+theorem safeHostname_bad {y sch ui H po tl : Str} (h : Shape y sch ui H po tl)
+    (hbad : netlocOk (ui ++ (H ++ po)) = false) :
+    safeHostname y = .error .valueError := by
+  unfold safeHostname
+  have hp : pyMatch PROTOCOL_RE y = true := by rw [h.eq]; exact protocol_accepts h.sch _
+  simp only [hp, if_true, h.urlsplit_bad hbad]
 
 /-- the TLD test of `is_url` on a host -/
 def TldOk (W : World) (h : Str) : Prop :=
   W.validTld (IsUrl.lastLabel h) = true ∨ pyMatch SPECIAL_HOSTS_RE h = true
 
 theorem tldCheck_shape (W : World) {y sch ui H po tl : Str} (h : Shape y sch ui H po tl) :
-    tldCheck (isUrlEnv W) y = .ok true ↔ TldOk W (lower H) := by
+    tldCheck (isUrlEnv W) y = .ok true ↔
+      netlocOk (ui ++ (H ++ po)) = true ∧ TldOk W (lower H) := by
   have hne : lower H ≠ [] := by
     intro e
     have := lang_host_ne_nil h.host
     apply this
     simpa [lower] using e
-  unfold tldCheck isUrlEnv TldOk
-  simp only [safeHostname_shape h]
-  have hnh : noHost (some (lower H)) = false := by
-    simp only [noHost]
+  cases hok : netlocOk (ui ++ (H ++ po)) with
+  | false =>
+    unfold tldCheck isUrlEnv
+    simp only [safeHostname_bad h hok]
+    simp
+  | true =>
+    unfold tldCheck isUrlEnv TldOk
+    simp only [safeHostname_shape h hok]
+    have hnh : noHost (some (lower H)) = false := by
+      simp only [noHost]
+      cases hl : lower H with
+      | nil => exact absurd hl hne
+      | cons _ _ => rfl
+    simp only [hnh, Bool.false_eq_true, if_false, has_valid_tld, true_and]
     cases hl : lower H with
     | nil => exact absurd hl hne
-    | cons _ _ => rfl
-  simp only [hnh, Bool.false_eq_true, if_false, has_valid_tld]
-  cases hl : lower H with
-  | nil => exact absurd hl hne
-  | cons a r =>
-    simp only [List.isEmpty_cons, Bool.false_eq_true, if_false, is_special_host]
-    cases hv : W.validTld (IsUrl.lastLabel (a :: r)) <;> simp
+    | cons a r =>
+      simp only [List.isEmpty_cons, Bool.false_eq_true, if_false, is_special_host]
+      cases hv : W.validTld (IsUrl.lastLabel (a :: r)) <;> simp
 
 /-! ## from `is_url` to the shape -/
 
@@ -163,7 +177,8 @@ theorem isUrlC_iff (W : World) (u : Str) :
     rw [key.mpr ⟨h1, fun _ _ => h2, h3, fun _ => h4⟩]
 
 theorem shape_of_isUrl (W : World) (u : Str) (hu : isUrlC W u = true) (hr : region u = true) :
-    ∃ sch ui H po tl, Shape (strip u) sch ui H po tl ∧ TldOk W (lower H) := by
+    ∃ sch ui H po tl, Shape (strip u) sch ui H po tl ∧ netlocOk (ui ++ (H ++ po)) = true ∧
+      TldOk W (lower H) := by
   obtain ⟨_, hhttp, hre, htld⟩ := (isUrlC_iff W u).mp hu
   generalize hs : strip u = s at hhttp hre htld
   have hlast : ∀ c, s.getLast? = some c → isSpace c = false := by rw [← hs]; exact strip_getLast u
@@ -171,7 +186,7 @@ theorem shape_of_isUrl (W : World) (u : Str) (hu : isUrlC W u = true) (hr : regi
   obtain ⟨a, b, c, d, e, rest, es, ha, hb, hc, hd, he⟩ := http_decomp (pyMatch_sound hhttp)
   -- the region
   simp only [region, hs, Bool.and_eq_true, Bool.not_eq_true', List.all_eq_true] at hr
-  obtain ⟨⟨⟨hsch, hlb⟩, hrb⟩, hat⟩ := hr
+  obtain ⟨hsch, hat⟩ := hr
   have hcol : ':' ∉ a :: b :: c :: d :: e := by
     intro hm
     simp only [List.mem_cons] at hm
@@ -264,26 +279,8 @@ theorem shape_of_isUrl (W : World) (u : Str) (hu : isUrlC W u = true) (hr : regi
             exact mem_dropWhile_of _ ⟨x, hx, by simp [hdx]⟩
           have h2 : (afterAuthority s).contains '@' = true := by simpa using this
           rw [hat] at h2; cases h2
-      have hauth : authorityOf s = w ++ '@' :: (H ++ po) := by
-        unfold authorityOf
-        rw [hafter, erest]
-        have e3 : w ++ ['@'] ++ (H ++ (po ++ tl)) = (w ++ '@' :: (H ++ po)) ++ tl := by simp
-        rw [e3]
-        apply takeWhile_append_stop _ _ _ _ htlh
-        intro x hx
-        rcases List.mem_append.mp hx with hx | hx
-        · simp [hnd x hx]
-        · rcases List.mem_cons.mp hx with rfl | hx
-          · decide
-          · simp [(hHpo x hx).1]
       intro x hx
-      refine ⟨hnd x hx, ?_, ?_, ?_⟩
-      · rintro rfl
-        have : (authorityOf s).contains '[' = true := by rw [hauth]; simp [hx]
-        rw [hlb] at this; cases this
-      · rintro rfl
-        have : (authorityOf s).contains ']' = true := by rw [hauth]; simp [hx]
-        rw [hrb] at this; cases this
+      refine ⟨hnd x hx, ?_⟩
       · have := CharClass.avoids_sound label_facts.2.2.2.2.2 (hw x hx)
         cases hu' : isUnsafeUrlChar x with
         | false => rfl
@@ -293,7 +290,8 @@ theorem shape_of_isUrl (W : World) (u : Str) (hu : isUrlC W u = true) (hr : regi
           rcases hu' with (rfl | rfl) | rfl <;> exact this (by decide)
   have hshape : Shape s (a :: b :: c :: d :: e) ui H po tl :=
     ⟨by rw [es', erest], hsch, hui', hH, hpo, htl⟩
-  exact ⟨_, ui, H, po, tl, hshape, (tldCheck_shape W hshape).mp htld⟩
+  obtain ⟨hok, htldok⟩ := (tldCheck_shape W hshape).mp htld
+  exact ⟨_, ui, H, po, tl, hshape, hok, htldok⟩
 
 /-! ## from the shape to `is_url` -/
 
@@ -302,6 +300,7 @@ theorem isUrl_of_shape (W : World) {y sch ui H po tl : Str} (h : Shape y sch ui 
     (hws : ∀ c ∈ y, isSpace c = false)
     (hui : ui = [] ∨ ∃ w, ui = w ++ ['@'] ∧ w ≠ [])
     (hpo : po = [] ∨ ∃ ds, po = ':' :: ds ∧ ds.length ≤ 5)
+    (hok : netlocOk (ui ++ (H ++ po)) = true)
     (htld : TldOk W (lower H)) : isUrlC W y = true := by
   have hstrip : strip y = y := strip_eq_self hws
   rw [isUrlC_iff, hstrip]
@@ -309,7 +308,7 @@ theorem isUrl_of_shape (W : World) {y sch ui H po tl : Str} (h : Shape y sch ui 
     rw [h.eq]
     obtain ⟨a, b, c, d, e, rfl, _⟩ := h.sch
     simp
-  refine ⟨by simpa using hyne, ?_, ?_, (tldCheck_shape W h).mpr htld⟩
+  refine ⟨by simpa using hyne, ?_, ?_, (tldCheck_shape W h).mpr ⟨hok, htld⟩⟩
   · rw [h.eq]
     rcases hsch with rfl | rfl
     · exact (http_accepts' _).1
